@@ -445,6 +445,14 @@ class T4World(World):
         self.tag = nfc.tag.activate(self.clf, t)
         assert type(self.tag) is nfc.tag.tt4.Type4ATag, type(self.tag)
         self.n_retry = self.tag._dep.n_retry_nak
+        self.sent = []                     # command APDUs handed to the ISO-DEP layer
+        dep_exchange = self.tag._dep.exchange
+
+        def exchange(command, timeout=None):
+            if command is not None:
+                self.sent.append(bytes(command))
+            return dep_exchange(command, timeout)
+        self.tag._dep.exchange = exchange
 
     def memory(self):
         return repr(self.card.memory())
@@ -555,7 +563,7 @@ class FelicaStandardSim(SimT3Tag):
             if code == 0x04 and len(body) == 0:
                 rsp = self.idm + bytearray([self.mode])
             elif code == 0x0C and len(body) == 0:
-                rsp = self.idm + bytearray([1]) + self.sys
+                rsp = self.idm + bytearray([1]) + bytearray(b'\x12\xfc')
             elif code == 0x0A and len(body) == 2:
                 i = body[0] | body[1] << 8
                 if i < len(self.listing):
